@@ -306,6 +306,11 @@ def gen_tree(rng, mode='plain'):
                 files[p] = ['f.%04d.exr' % i for i in range(1, rng.randint(2, 4))]
             d = p
         files['.'] = ['f.0001.exr', 'f.0002.exr']
+        # often a HIDDEN link to a leaf directory near the top: without -a it is neither listed nor
+        # entered, and must not disturb the rest of the walk
+        leaves = [x for x in dirs if x.rsplit('/', 1)[-1].startswith('l')]
+        if leaves and rng.random() < 0.6:
+            links[rng.choice(['.hl', 'n0/.hl'])] = rng.choice(leaves)
         return dirs, files, links
     def add_files(d):
         for _ in range(rng.randint(0, 3)):
@@ -375,7 +380,7 @@ def gen_tree(rng, mode='plain'):
             # target not yet linked, no cycle, and neither the target nor (later) any target may hold a link
             if tgt in used or under(parent, tgt) or has_link_inside(tgt) or any(under(parent, t) for t in used):
                 continue
-            add_link(parent, tgt, rng.random() < 0.1)
+            add_link(parent, tgt, rng.random() < 0.3)
             used.add(tgt)
     return dirs, files, links
 
